@@ -14,6 +14,10 @@ use std::time::{Duration, Instant};
 
 pub const WORKER_STACK: usize = 64 << 20;
 
+/// Plans are generated against the full level list so that a seed means the same plan in every build
+/// flavour; a level the build cannot run falls back to real detection at exec time.
+pub const GEN_LEVELS: [Level; 5] = [Level::Portable, Level::SSE2, Level::SSE41, Level::AVX2, Level::AVX512];
+
 pub fn verif_dir() -> std::path::PathBuf {
     std::env::var_os("VERIF_DIR").map(Into::into).unwrap_or_else(|| "/verif".into())
 }
@@ -207,6 +211,9 @@ pub fn judge_plan(plan: &Plan, judge: Judge, avail: &[Level]) -> (ExecOut, Optio
 
 #[derive(serde::Serialize, serde::Deserialize)]
 pub struct ShardResult {
+    /// (run index, digest of all per-operation results) for the first runs: compared across build flavours
+    #[serde(default)]
+    pub digests: Vec<(u64, u64)>,
     pub agg: Agg,
     pub found: Option<Found>,
     pub harness: Option<String>,
@@ -216,9 +223,9 @@ pub struct ShardResult {
 /// One shard: runs i = shard, shard+of, ... < count sequentially in this process.
 pub fn run_shard(spec: &CheckSpec, fam_name: &str, tier: &str, seed: u64, shard: u64, of: u64, count: u64, stopfile: &str) -> i32 {
     let avail = exec::available_levels();
-    let gctx = GenCtx { tier_thorough: tier == "thorough", avail: &avail };
+    let gctx = GenCtx { tier_thorough: tier == "thorough", avail: &GEN_LEVELS };
     let Some(fam) = spec.families.iter().find(|f| f.name == fam_name) else { return 2 };
-    let mut res = ShardResult { agg: Agg::default(), found: None, harness: None, samples: vec![] };
+    let mut res = ShardResult { digests: vec![], agg: Agg::default(), found: None, harness: None, samples: vec![] };
     let fam2 = fam.clone();
     // big stack: copy_wide has a 64 KiB frame and single-task plans run on this thread
     let handle = std::thread::Builder::new()
@@ -227,7 +234,7 @@ pub fn run_shard(spec: &CheckSpec, fam_name: &str, tier: &str, seed: u64, shard:
             let stopfile = stopfile.to_string();
             let avail = avail.clone();
             move || {
-                let gctx = GenCtx { tier_thorough: gctx.tier_thorough, avail: &avail };
+                let gctx = GenCtx { tier_thorough: gctx.tier_thorough, avail: &GEN_LEVELS };
                 let mut i = shard;
                 let mut k = 0u64;
                 while i < count {
@@ -242,6 +249,15 @@ pub fn run_shard(spec: &CheckSpec, fam_name: &str, tier: &str, seed: u64, shard:
                         break;
                     }
                     res.agg.add(fam2.name, &out, plan.tasks.len());
+                    if i < 6000 {
+                        let mut f = Fnv::default();
+                        for t in &out.op_digests {
+                            for d in t {
+                                f.u64(*d);
+                            }
+                        }
+                        res.digests.push((i, f.0));
+                    }
                     if i < 2 {
                         res.samples.push(json!({"run": i, "plan": plan_summary(&plan), "trace_digest": format!("{:016x}", out.trace_digest())}));
                     }
@@ -275,6 +291,8 @@ pub struct CheckSpec {
 }
 
 pub struct RunCfg {
+    /// write a part file (evidence/.parts/<prop>.<part>.json) instead of the final evidence
+    pub part: Option<String>,
     pub tier: String,
     pub seed: u64,
     pub jobs: usize,
@@ -309,12 +327,13 @@ pub fn run_check(spec: &CheckSpec, cfg: &RunCfg) -> i32 {
     let t0 = Instant::now();
     let avail = exec::available_levels();
     let thorough = cfg.tier == "thorough";
-    let gctx = GenCtx { tier_thorough: thorough, avail: &avail };
+    let gctx = GenCtx { tier_thorough: thorough, avail: &GEN_LEVELS };
     let stop = AtomicBool::new(false);
     let found: Mutex<Vec<Found>> = Mutex::new(Vec::new());
     let harness: Mutex<Option<String>> = Mutex::new(None);
     let total = Mutex::new(Agg::default());
     let samples: Mutex<Vec<serde_json::Value>> = Mutex::new(Vec::new());
+    let run_digests: Mutex<BTreeMap<String, BTreeMap<u64, u64>>> = Mutex::new(BTreeMap::new());
     println!(
         "b3sim: property={} tier={} VERIF_SEED={} jobs={} flavour={} levels={:?}",
         spec.prop, cfg.tier, cfg.seed, cfg.jobs, flavour(), avail
@@ -372,6 +391,7 @@ pub fn run_check(spec: &CheckSpec, cfg: &RunCfg) -> i32 {
                     done_runs += res.agg.runs;
                     total.lock().unwrap().merge(res.agg);
                     samples.lock().unwrap().extend(res.samples);
+                    run_digests.lock().unwrap().entry(fam.name.to_string()).or_default().extend(res.digests.iter().copied());
                     if let Some(h) = res.harness {
                         *harness.lock().unwrap() = Some(h);
                     }
@@ -408,41 +428,108 @@ pub fn run_check(spec: &CheckSpec, cfg: &RunCfg) -> i32 {
         let class = f.violation.class.clone();
         let judge = fam.judge;
         let avail2 = avail.clone();
-        let mut last_rec: Vec<u8> = f.recorded.clone();
-        let mut test = |p: &Plan| -> Option<Violation> {
-            let (out, v, _) = judge_plan(p, judge, &avail2);
-            if out.harness_error.is_some() {
-                return None;
-            }
-            if v.is_some() {
-                last_rec = out.sched.choices.clone();
-            }
-            v
-        };
-        let (mut small, v) = shrink::shrink(&f.plan, &f.recorded, &class, &mut test, Duration::from_secs(if thorough { 60 } else { 30 }));
-        // final schedule: the recorded one of the shrunk plan
-        let (out, v2, levels) = judge_plan(&small, judge, &avail);
-        let v = v2.unwrap_or(v);
-        if matches!(small.schedule, Schedule::Gen { .. }) {
-            small.schedule = Schedule::Explicit { choices: out.sched.choices.clone() };
-        }
-        let rf = ReplayFile {
-            property: spec.prop.to_string(),
-            engine: match judge {
-                Judge::Exec => "exec",
-                Judge::CompareLevels => "compare-levels",
-                Judge::SelfCompose => "self-compose",
-                Judge::Solo => "solo",
-            }
-            .to_string(),
-            flavour: flavour().to_string(),
-            plan: small,
-            violation: v.clone(),
-            trace_digest: format!("{:016x}", out.trace_digest()),
-            levels,
+        let engine = match judge {
+            Judge::Exec => "exec",
+            Judge::CompareLevels => "compare-levels",
+            Judge::SelfCompose => "self-compose",
+            Judge::Solo => "solo",
         };
         let dir = verif_dir().join("replays");
         let _ = std::fs::create_dir_all(&dir);
+        let tmp_path = dir.join(format!(".tmp-{}-{}-{}.json", spec.prop, fam.name, f.i));
+        // does a replay file reproduce in a FRESH process?
+        let fresh = |rf: &ReplayFile| -> bool {
+            std::fs::write(&tmp_path, serde_json::to_string(rf).unwrap()).expect("write tmp replay");
+            let st = std::process::Command::new(std::env::current_exe().unwrap()).arg("replay").arg(&tmp_path).arg("--quiet").status();
+            matches!(st, Ok(s) if s.code() == Some(1))
+        };
+        let mk = |plan: &Plan, v: &Violation, prelude: Vec<Plan>, levels: Vec<Level>, trace: u64| ReplayFile {
+            property: spec.prop.to_string(),
+            engine: engine.to_string(),
+            flavour: flavour().to_string(),
+            plan: plan.clone(),
+            violation: v.clone(),
+            trace_digest: format!("{:016x}", trace),
+            levels,
+            prelude,
+        };
+        // 1. the failing plan alone, in a fresh process
+        let mut prelude: Vec<Plan> = Vec::new();
+        let alone = mk(&f.plan, &f.violation, vec![], f.levels.clone(), 0);
+        let (small, v, out_trace, levels);
+        if fresh(&alone) {
+            let mut test = |p: &Plan| -> Option<Violation> {
+                let (out, v, _) = judge_plan(p, judge, &avail2);
+                if out.harness_error.is_some() {
+                    return None;
+                }
+                v
+            };
+            let (mut sm, v0) = shrink::shrink(&f.plan, &f.recorded, &class, &mut test, Duration::from_secs(if thorough { 60 } else { 30 }));
+            let (out, v2, lv) = judge_plan(&sm, judge, &avail);
+            if matches!(sm.schedule, Schedule::Gen { .. }) {
+                sm.schedule = Schedule::Explicit { choices: out.sched.choices.clone() };
+            }
+            small = sm;
+            v = v2.unwrap_or(v0);
+            out_trace = out.trace_digest();
+            levels = lv;
+        } else {
+            // 2. the violation depends on what the process did before (state the library keeps across
+            // calls): replay the shard's earlier runs as a prelude, then minimise the prelude.
+            let of = cfg.jobs as u64;
+            let gctx2 = GenCtx { tier_thorough: thorough, avail: &GEN_LEVELS };
+            let mut idx = f.i % of;
+            while idx < f.i {
+                prelude.push((fam.gen)(cfg.seed, idx, &gctx2));
+                idx += of;
+            }
+            let full = mk(&f.plan, &f.violation, prelude.clone(), f.levels.clone(), 0);
+            if !fresh(&full) {
+                let _ = std::fs::remove_file(&tmp_path);
+                eprintln!("HARNESS ERROR: violation candidate (family {} run {}) reproduces neither alone nor after its shard's history in a fresh process", fam.name, f.i);
+                return 2;
+            }
+            println!("  violation depends on process history: reproduced with a prelude of {} earlier runs; minimising", prelude.len());
+            // drop from the front while it still reproduces (halving, then one by one)
+            let t_min = Instant::now();
+            let mut step = (prelude.len() / 2).max(1);
+            while step >= 1 && !prelude.is_empty() && t_min.elapsed() < Duration::from_secs(60) {
+                if step <= prelude.len() {
+                    let cand: Vec<Plan> = prelude[step..].to_vec();
+                    if fresh(&mk(&f.plan, &f.violation, cand.clone(), f.levels.clone(), 0)) {
+                        prelude = cand;
+                        continue;
+                    }
+                }
+                if step == 1 {
+                    break;
+                }
+                step /= 2;
+            }
+            // drop single runs anywhere
+            let mut k = 0;
+            while k < prelude.len() && t_min.elapsed() < Duration::from_secs(90) {
+                let mut cand = prelude.clone();
+                cand.remove(k);
+                if fresh(&mk(&f.plan, &f.violation, cand.clone(), f.levels.clone(), 0)) {
+                    prelude = cand;
+                } else {
+                    k += 1;
+                }
+            }
+            let mut sm = f.plan.clone();
+            sm.schedule = Schedule::Explicit { choices: f.recorded.clone() };
+            if !fresh(&mk(&sm, &f.violation, prelude.clone(), f.levels.clone(), 0)) {
+                sm = f.plan.clone();
+            }
+            small = sm;
+            v = f.violation.clone();
+            out_trace = 0;
+            levels = f.levels.clone();
+        }
+        let _ = std::fs::remove_file(&tmp_path);
+        let rf = mk(&small, &v, prelude, levels, out_trace);
         let path = dir.join(format!("{}-{}-{}.json", spec.prop, fam.name, f.i));
         std::fs::write(&path, serde_json::to_string_pretty(&rf).unwrap()).expect("write replay");
         // must reproduce in a fresh process
@@ -510,6 +597,18 @@ pub fn run_check(spec: &CheckSpec, cfg: &RunCfg) -> i32 {
     });
     let evdir = verif_dir().join("evidence");
     let _ = std::fs::create_dir_all(&evdir);
+    if let Some(part) = &cfg.part {
+        let pdir = evdir.join(".parts");
+        let _ = std::fs::create_dir_all(&pdir);
+        let partv = json!({
+            "part": part, "flavour": flavour(), "evidence": ev, "exit": exit,
+            "shapes": agg.shapes, "sigs": agg.sigs,
+            "run_digests": run_digests.into_inner().unwrap(),
+        });
+        write_evidence(&pdir.join(format!("{}.{}.json", spec.prop, part)), partv);
+        println!("b3sim: part {} of {}: {} runs, {:.1}s, exit {}", part, spec.prop, agg.runs, wall, exit);
+        return exit;
+    }
     let evp = evdir.join(format!("{}.json", spec.prop));
     // several engines may contribute to one property's evidence: merge under "engines"
     write_evidence(&evp, ev);
@@ -560,6 +659,10 @@ pub fn replay(path: &str, quiet: bool) -> i32 {
         }
     };
     let avail = exec::available_levels();
+    // history first: runs whose only role is the state they leave behind in the process
+    for p in &rf.prelude {
+        let _ = judge_plan(p, judge, &avail);
+    }
     let (out, v, _) = judge_plan(&rf.plan, judge, &avail);
     if let Some(h) = out.harness_error {
         eprintln!("HARNESS ERROR: {h}");
@@ -592,7 +695,7 @@ pub fn replay(path: &str, quiet: bool) -> i32 {
 /// determinism self-test: every plan executed twice in-process gives identical trace digests
 pub fn selftest_determinism(spec_list: &[CheckSpec], seeds: u64, jobs: usize) -> i32 {
     let avail = exec::available_levels();
-    let gctx = GenCtx { tier_thorough: false, avail: &avail };
+    let gctx = GenCtx { tier_thorough: false, avail: &GEN_LEVELS };
     let bad = AtomicU64::new(0);
     let mut all = Fnv::default();
     for spec in spec_list {
@@ -645,4 +748,143 @@ pub fn selftest_determinism(spec_list: &[CheckSpec], seeds: u64, jobs: usize) ->
     } else {
         2
     }
+}
+
+
+/// Merge the part files of one property (several build flavours / engines) into the final evidence
+/// file, and compare the per-run digests between parts: the same seeded plan must give the same
+/// results in every build flavour.
+pub fn merge_parts(prop: &str, parts: &[String], seed: u64, tier: &str) -> i32 {
+    let evdir = verif_dir().join("evidence");
+    let mut loaded: Vec<serde_json::Value> = Vec::new();
+    for p in parts {
+        let path = evdir.join(".parts").join(format!("{}.{}.json", prop, p));
+        match std::fs::read_to_string(&path).ok().and_then(|t| serde_json::from_str::<serde_json::Value>(&t).ok()) {
+            Some(v) => loaded.push(v),
+            None => {
+                eprintln!("HARNESS ERROR: missing part file {}", path.display());
+                return 2;
+            }
+        }
+    }
+    let mut exit = 0;
+    let mut evaluations = 0u64;
+    let mut wall = 0.0;
+    let mut violations = 0i64;
+    let mut shapes: BTreeSet<u64> = BTreeSet::new();
+    let mut sigs: BTreeSet<u64> = BTreeSet::new();
+    let mut samples = Vec::new();
+    let mut per_part = serde_json::Map::new();
+    for v in &loaded {
+        let e = &v["evidence"];
+        evaluations += e["coverage"]["evaluations"].as_u64().unwrap_or(0);
+        wall += e["wall_s"].as_f64().unwrap_or(0.0);
+        violations += e["violations"].as_i64().unwrap_or(0);
+        if v["exit"].as_i64().unwrap_or(0) != 0 {
+            exit = 1;
+        }
+        for x in v["shapes"].as_array().into_iter().flatten() {
+            shapes.insert(x.as_u64().unwrap_or(0));
+        }
+        for x in v["sigs"].as_array().into_iter().flatten() {
+            sigs.insert(x.as_u64().unwrap_or(0));
+        }
+        if let Some(s) = e["coverage"]["samples"].as_array() {
+            samples.extend(s.iter().take(2).cloned());
+        }
+        let mut c = e["coverage"].clone();
+        if let Some(o) = c.as_object_mut() {
+            o.remove("samples");
+        }
+        per_part.insert(v["part"].as_str().unwrap_or("?").to_string(), c);
+    }
+    // cross-flavour comparison of per-run digests
+    let mut compared = 0u64;
+    let mut mismatch: Option<(String, u64, String, String)> = None;
+    if let Some(base) = loaded.first() {
+        for other in loaded.iter().skip(1) {
+            let (Some(a), Some(b)) = (base["run_digests"].as_object(), other["run_digests"].as_object()) else { continue };
+            for (fam, da) in a {
+                let Some(db) = b.get(fam) else { continue };
+                let (Some(da), Some(db)) = (da.as_object(), db.as_object()) else { continue };
+                for (i, x) in da {
+                    if let Some(y) = db.get(i) {
+                        compared += 1;
+                        if x != y && mismatch.is_none() {
+                            mismatch = Some((fam.clone(), i.parse().unwrap_or(0), base["part"].as_str().unwrap_or("?").to_string(), other["part"].as_str().unwrap_or("?").to_string()));
+                        }
+                    }
+                }
+            }
+        }
+    }
+    if let Some((fam, i, pa, pb)) = &mismatch {
+        // the plan is regenerated (generation does not depend on the build flavour)
+        if let Some(spec) = crate::checks::spec(prop) {
+            if let Some(f) = spec.families.iter().find(|f| f.name == fam) {
+                let avail = exec::available_levels();
+                let g = GenCtx { tier_thorough: tier == "thorough", avail: &GEN_LEVELS };
+                let plan = (f.gen)(seed, *i, &g);
+                let rf = ReplayFile {
+                    property: prop.to_string(),
+                    engine: "compare-flavours".into(),
+                    flavour: format!("{pa} vs {pb}"),
+                    plan,
+                    violation: Violation { property: prop.into(), class: "config-divergence".into(), task: 0, op: 0, op_kind: "".into(), detail: format!("per-operation results of run {i} of family {fam} differ between build flavours {pa} and {pb}") },
+                    trace_digest: String::new(),
+                    levels: vec![],
+                    prelude: vec![],
+                };
+                let dir = verif_dir().join("replays");
+                let _ = std::fs::create_dir_all(&dir);
+                let path = dir.join(format!("{}-{}-{}-flavours.json", prop, fam, i));
+                std::fs::write(&path, serde_json::to_string_pretty(&rf).unwrap()).expect("write replay");
+                println!("VIOLATION property={} replay={}", prop, path.display());
+                exit = 1;
+                violations += 1;
+            }
+        }
+    }
+    let level = loaded.first().map(|v| v["evidence"]["level"].as_str().unwrap_or("exploration").to_string()).unwrap_or_default();
+    let rule = loaded.first().map(|v| v["evidence"]["coverage"]["rule"].as_str().unwrap_or("").to_string()).unwrap_or_default();
+    let assumptions = loaded.first().map(|v| v["evidence"]["assumptions"].clone()).unwrap_or(json!([]));
+    let ev = json!({
+        "property_id": prop,
+        "tier": tier,
+        "seed": seed,
+        "level": level,
+        "coverage": {
+            "evaluations": evaluations,
+            "distinct_nontrivial": shapes.len() + sigs.len(),
+            "rule": rule,
+            "samples": samples,
+            "parts": per_part,
+            "cross_flavour_run_digests_compared": compared,
+            "runs_per_hour": (evaluations as f64 / wall.max(0.001) * 3600.0) as u64,
+        },
+        "assumptions": assumptions,
+        "wall_s": wall,
+        "violations": violations,
+    });
+    write_evidence(&evdir.join(format!("{}.json", prop)), ev);
+    println!("b3sim: merged {} parts of {}: {} runs, {} cross-flavour digests compared, exit {}", loaded.len(), prop, evaluations, compared, exit);
+    exit
+}
+
+/// digest of all per-operation results of a replay file's plan in this build (for compare-flavours replays)
+pub fn digest_plan(path: &str) -> i32 {
+    let Ok(txt) = std::fs::read_to_string(path) else { return 2 };
+    let Ok(rf) = serde_json::from_str::<ReplayFile>(&txt) else { return 2 };
+    let out = exec::exec(&rf.plan);
+    if out.harness_error.is_some() {
+        return 2;
+    }
+    let mut f = Fnv::default();
+    for t in &out.op_digests {
+        for d in t {
+            f.u64(*d);
+        }
+    }
+    println!("{:016x} violation={}", f.0, out.violation.is_some());
+    0
 }
